@@ -103,4 +103,10 @@ CLAIMED["C19"] = (
     "NormalizeReward) driven over multi-step histories on a scripted environment; plus Environment.step on a real compiled graph.",
     "wrappers are generic over the wrapped environment (duck-typed scripted env); only the stacking order used by rex.ppo is generated", "DESIGN.md §4 C19",
 )
+CLAIMED["C20"] = (
+    PBT + ": differential oracle - exported Policy vs flax Actor.apply on the same parameters with independent numpy observation normalisation and action unsquash/clip",
+    "Generated network depths/widths/activations, squash and normalisation settings with drawn running statistics, action bounds, NUM_ENVS, seeds, observations "
+    "far outside the training range and sampling rngs; PPOResult assembled exactly as ppo.train leaves it (also with the leading axis of vmapped trainings), plus real tiny ppo.train runs.",
+    "flax Dense/activations and distrax MultivariateNormalDiag trusted as the reference actor; state-dependent std not generated", "DESIGN.md §4 C20",
+)
 NOT_APPLICABLE = {}
